@@ -1,7 +1,8 @@
 SPECIFICATION Spec
 CONSTANTS
+  DepthLimit = 3
   MaxLen = 5
   MaxWS = 1
   Emit = FALSE
-INVARIANTS TypeOK CompletionAccepts PlainInStringStutters WhitespaceStutters DeadIsAbsorbing NoBadPop InsertionsAreDead
+INVARIANTS TypeOK CompletionAccepts PlainInStringStutters WhitespaceStutters DeadIsAbsorbing NoBadPop InsertionsAreDead DepthLifting
 CHECK_DEADLOCK FALSE
